@@ -35,8 +35,66 @@ def extract(ctx):
                          "definite bad shapes, the correspondence decides")
 
 
+def race_run(ctx):
+    """cascades on several workers with a harness built with -race: a DATA RACE report with frames in the
+    tree under test, or a crash, is a violation (clause c with several workers rests on the lock section)"""
+    cov = ctx.coverage
+    cov["race_cases"] = 0
+    try:
+        binp = checklib.go_build(ctx, out="harness-race", race=True)
+    except checklib.CheckError as e:
+        ctx.notes.append("the -race build of the harness failed; no race run in this check: " + str(e)[-200:])
+        return
+    nsh = 6
+    procs = []
+    for i in range(nsh):
+        env = dict(checklib.GOENV, CGO_ENABLED="1", GORACE=f"log_path={ctx.work}/race-log halt_on_error=0", VERIF_REPO=checklib.REPO)
+        procs.append(subprocess.Popen([binp, "C10", "-tier", "race", "-seed", str(ctx.seed), "-shard", f"{i}/{nsh}",
+                                       "-cases", os.path.join(ctx.work, f"race-cases.{i}"), "-out", os.path.join(ctx.work, f"race-out.{i}")],
+                                      cwd=ctx.work, env=env, stdout=subprocess.PIPE, stderr=subprocess.STDOUT, text=True))
+    crashed = []
+    for i, p in enumerate(procs):
+        try:
+            out, _ = p.communicate(timeout=600)
+        except subprocess.TimeoutExpired:
+            p.kill()
+            out = "timeout"
+        if p.returncode != 0:
+            crashed.append((i, p.returncode, out[-1500:]))
+    ncases = 0
+    for i in range(nsh):
+        f = os.path.join(ctx.work, f"race-out.{i}")
+        if os.path.exists(f):
+            ncases += sum(1 for l in open(f, errors="replace") if l and not l.startswith("#"))
+    cov["race_cases"] = ncases
+    reports = []
+    for fn in sorted(glob.glob(os.path.join(ctx.work, "race-log*"))):
+        txt = open(fn, errors="replace").read()
+        for blk in txt.split("=================="):
+            if "DATA RACE" in blk and ("/engine/" in blk or "krotik/ecal/engine" in blk):
+                reports.append(blk.strip())
+    cov["race_reports_in_engine"] = len(reports)
+    for i, rc, out in crashed[:1]:
+        last = ""
+        cf = os.path.join(ctx.work, f"race-cases.{i}")
+        if os.path.exists(cf):
+            ls = [l for l in open(cf, errors="replace") if l.strip()]
+            last = ls[-1].split("\t", 1)[-1].strip() if ls else ""
+        rp = checklib.write_replay(ctx, "race-crash", {"payload": last, "output": out[-1200:]},
+                                   "cascades on several workers run without a fatal error", f"harness exited with status {rc}",
+                                   "build the harness with -race and run the payload with -one", tag="racecrash")
+        checklib.violation(ctx, rp, "the real code crashed in the race run: " + " ".join(out.split())[-160:])
+    if reports:
+        rp = checklib.write_replay(ctx, "race", {"reports": len(reports), "first": reports[0][:3000]},
+                                   "no data race in engine/ while cascades run on several workers",
+                                   f"{len(reports)} DATA RACE report(s) with frames in engine/",
+                                   "build the harness with -race (GORACE=log_path=…) and run `harness C10 -tier race`", tag="race")
+        checklib.violation(ctx, rp, f"{len(reports)} DATA RACE report(s) in engine/ ({ncases} cascades on 2..8 workers)")
+
+
 def post(ctx, cases, gores, model):
     """dequeue traces recorded at queue.push / queue.pop in the multi-worker runs → model"""
+    race_run(ctx)
     traces = {}
     for fn in sorted(glob.glob(os.path.join(ctx.work, "c10-traces-*.txt"))):
         for l in open(fn, errors="replace"):
@@ -45,17 +103,6 @@ def post(ctx, cases, gores, model):
                 payload, tr = l.split("\t", 1)
                 traces[len(traces)] = (payload, tr)
     cov = ctx.coverage
-    # declared deviation: negative monitor priorities are clamped by the queue
-    neg = [i for i in sorted(cases) if model.get(i, ("", {}))[1].get("dev") == "neg"]
-    cov["negative_priority_clamp_changes_order"] = len(neg)
-    if neg:
-        known, _ = checklib.load_known()
-        text = (f"{len(neg)} one-worker cascade cases where clamping a negative monitor priority to 0 in PriorityQueue.Push changes the order "
-                f"in which events are taken (Go = model; the property's 'lowest priority number' would order them differently), e.g. {cases[neg[0]]}")
-        if (ctx.prop, "negative-priority-clamped") in known:
-            checklib.known_finding(ctx, "id=negative-priority-clamped " + text)
-        else:
-            ctx.notes.append("declared deviation (not in known_findings.txt): " + text)
     # runs with free tie order: the observed run is validated by the model
     obs = {}
     for fn in sorted(glob.glob(os.path.join(ctx.work, "c10-validate-*.txt"))):
@@ -66,7 +113,17 @@ def post(ctx, cases, gores, model):
     cov["validated_runs"] = 0
     if obs:
         vres = checklib.run_driver(ctx, ctx.prop, obs, args=["validate"], shards=8)
-        vbad = [k for k in sorted(obs) if vres.get(k, ("MISSING", {}))[0] != "ok"]
+        vbad = [k for k in sorted(obs) if vres.get(k, ("MISSING", {}))[0] not in ("ok", "ok-floored-only")]
+        floored = [k for k in sorted(obs) if vres.get(k, ("", {}))[0] == "ok-floored-only"]
+        cov["sink_runs_admissible_only_for_floored_priorities"] = len(floored)
+        if floored:
+            known, _ = checklib.load_known()
+            text = (f"{len(floored)} sink runs that are trigger sequences for the floored priorities but not for the numbers as written, "
+                    f"e.g. {obs[floored[0]]}")
+            if (ctx.prop, "fractional-sink-priority-floored") in known:
+                checklib.known_finding(ctx, "id=fractional-sink-priority-floored " + text)
+            else:
+                ctx.notes.append("finding not yet in known_findings.txt (fractional-sink-priority-floored): " + text)
         cov["validated_runs"] = len(obs) - len(vbad)
         vbad.sort(key=lambda k: len(obs[k]))
         for k in vbad[:3]:
@@ -84,7 +141,8 @@ def post(ctx, cases, gores, model):
                          "the dequeue order with several workers was not checked in this run")
         return
     res = checklib.run_driver(ctx, ctx.prop, {k: v[1] for k, v in traces.items()}, args=["trace"], shards=8)
-    bad = [k for k in sorted(traces) if res.get(k, ("MISSING", {}))[0] != "ok"]
+    bad = [k for k in sorted(traces) if res.get(k, ("MISSING", {}))[0] not in ("ok", "ok-unclamped")]
+    cov["traces_following_the_unclamped_queue"] = sum(1 for k in traces if res.get(k, ("", {}))[0] == "ok-unclamped")
     cov["traces_validated_against_impl"] = len(traces) - len(bad)
     cov["trace_events"] = sum(len(v[1].split(" ")) for v in traces.values())
     bad.sort(key=lambda k: len(traces[k][1]))
@@ -109,44 +167,59 @@ SPEC = dict(
           "in the error report, number of processed child events. "
           "V: 0..40 rules with ties of mixed outcome; Go reports the started rule NAMES and the model VALIDATES the run (Ecal.Priority.validRun; "
           "validRun_iff: it accepts exactly the runs of the rule loop under some admissible sort) instead of predicting it. "
-          "S: the R rule sets as ECAL sinks run by the interpreter with its default flag: priority attribute incl. equal / negative / fractional "
-          "values, the three ways a sink fails (raise, runtime error, top-level return), addEvent; also after life-cycle histories. "
+          "P: 2..8 rules with distinct priorities plus ScopeMatch / SuppressionList / two matching kind patterns on a root monitor with a "
+          "restricted scope: the order of what ProcessEvent's pre-sort half (de-duplication, scope filter, suppression) leaves. "
+          "S: the R rule sets as ECAL sinks run by the interpreter with its default flag: priority numbers equal / negative / fractional (also "
+          "negative fractions, floor), a number outside the int range (declaration must be rejected), the three ways a sink fails (raise, "
+          "runtime error, top-level return), addEvent; also after life-cycle histories. "
+          "W: sinks whose fractional numbers tie after flooring, with mixed outcomes: the observed run is validated for the floored numbers; runs "
+          "that are not trigger sequences for the numbers as written are counted for the finding fractional-sink-priority-floored. "
           "B: RootMonitor driven directly (HighestPriority() after every call, IsActivated() of every monitor at the end): every sequence of exactly 6 (quick) / 7 (thorough) steps over 3 priorities (heap of at most 3 entries: "
           "exercises the counting and the Skip guard, cannot see heap-order defects); random sequences of up to 90 calls over up to 12 priorities "
           "incl. negative and rejected calls; heap-stress sequences (8..30 distinct priorities active at once, then 40..160 random finishes and "
           "activations). HighestPriority() after every call. "
           "Q: sortutil.PriorityQueue driven directly (Push with 2..40 distinct priorities incl. negative, Pop, Peek, Clear, up to 450 calls): "
           "returned values AND the slice layout (PriorityQueue.String()) after every call against the heap-slice model HPQ. "
-          "K: cascade scripts (1..3 root monitors, up to 12 events each with 0..4 rules of distinct priorities, monitor priorities -3..5, skipped "
+          "K: cascade scripts (1..3 root monitors, up to 12 events each with 0..4 rules of distinct priorities, monitor priorities from -3..5, "
+          "6..40, 1000 and MaxInt32, skipped "
           "events, failing rules, both flag settings; the events of a rule are added by that rule). 1 worker: exact order of action starts per "
           "root with HighestPriority() sampled in every action, error report, final report. 2..8 workers: set of started (event, rule) pairs, "
           "error report, final report, a schedule-independent oracle for HighestPriority() inside every action (<= own priority, is the priority of "
-          "a triggering event of that root), and the recorded queue.push/queue.pop trace replayed on the abstract queue and on HPQ. "
+          "a triggering event of that root), and the recorded queue.push/queue.pop trace replayed on the abstract queue and on HPQ; a few "
+          "cascades of 200..400 events with 16 priorities on 8 workers. RACE RUN: 150 cascades on 2..8 workers and 12 big ones with a harness "
+          "built with -race; a DATA RACE report with frames in engine/ or a crash is a violation. "
           "Non-trivial = at least two rules and a failing one / a finish after at least two activations or skips / at least three events / at "
           "least four queue calls."),
     exhaustive="all RootMonitor step sequences of the stated length over 3 priorities",
     trusted_base=[
-        "the rules handed to ProcessEvent's sort/loop are produced by the rule index (C01); the model starts from the triggered, non-suppressed rules",
+        "the proved model starts from the list ProcessEvent sorts; its pre-sort half (de-duplication of double kind matches, scope filter, "
+        "suppression — code of ProcessEvent itself; WHICH rules run is C01's subject) is only replicated by a filter in the driver for the P cases",
         "Go's sort.Sort(RuleSlice) returns a permutation in non-decreasing priority order (IsPrioSort); nothing is assumed about ties; both of its "
         "code paths (n <= 12 and n > 12) are exercised by the R/V cases",
         "sortutil.PriorityQueue: the abstract queue ('pop = least (clamped priority, counter)') is proved to be refined by the container/heap "
         "representation HPQ in every reachable state (pq_reachable_heap_ordered, real_pop_is_min); that HPQ / Heap.push / Heap.pop transcribe "
         "the Go code is tied by the Q cases (values and slice layout after every call) and by replaying every recorded trace on HPQ; "
         "Heap.init / Heap.fix / IntHeap.RemoveFirst by the B cases (heap-stress family)",
-        "TaskQueue.Push / Pop are atomic (tq.lock); with several workers the dequeue order is observed at the hook points queue.push / queue.pop "
+        "TaskQueue.Push / Pop are atomic (tq.lock, and the pool calls them under its own queueLock); ReachableTQ has no notion of a worker — it is "
+        "every sequence of atomic calls, which is what several workers produce; with several workers the dequeue order is observed at the hook points queue.push / queue.pop "
         "called under that lock",
-        "HighestPriority with several workers: the theorem is about sequential call sequences; it speaks for concurrent cascades because every "
-        "access to incomplete / priorities is inside one rm.lock section (re-extracted on every run: Gen.C10.bookAccess, theorem "
-        "gen_bookkeeping_under_lock) and each monitor is driven by one goroutine at a time (Activate by the adder before the task is queued, "
-        "Finish by the worker that ran it); this linearisation argument is not a Lean theorem",
-        "go/ast fact extractor go/cmd/harness/c10tool.go (writers of failOnFirstError, lock discipline, the two repaired guards); values it "
-        "cannot classify are 'unknown'/'other' and are left to the correspondence",
+        "HighestPriority with several workers rests on NO theorem: highest_priority_exact is about sequential call sequences. What backs the "
+        "transfer: (1) the extracted fact that no use of incomplete / priorities follows an Unlock of a RootMonitor mutex inside its function "
+        "(textual lock sections, mutex fields recognised by type; 'unknown' when the extractor cannot tell), (2) the race run, (3) the "
+        "schedule-independent HighestPriority oracle in every action, (4) each monitor being driven by one goroutine at a time (by reading)",
+        "go/ast fact extractor go/cmd/harness/c10tool.go; three-valued: an obligation breaks only on positive evidence (a constant written to "
+        "failOnFirstError; a use after an Unlock; RemoveFirst with nothing after it that reaches a re-heapify; a decrement guarded by the "
+        "activated flag alone), everything else is 'unknown'/'other' and left to the correspondence. The flag fact does NOT exclude the "
+        "positional literal in NewProcessor, struct copies or unclassified right-hand sides; the life-cycle histories test Start/Finish/Reset/AddRule only",
         "the cascade model (ProcessEvent composed with the queue) runs ONE worker on ONE root monitor; for several workers the QUEUE clause is proved "
         "for every interleaving of atomic Push/Pop calls on any roots (ReachableTQ, several_workers_pop_is_min) and accepted_trace_pops_are_min says "
         "what the replay of a recorded trace establishes; the other observables of runs on several workers are schedule-independent (started "
         "sets, error reports, the HighestPriority oracle)",
     ],
     assumptions=[
+        "sink priorities: the interpreter floors the number (documented only as 'number', code calls the type int); numbers that tie after flooring "
+        "run in any order — finding fractional-sink-priority-floored (a sink `priority 0.7` may run before a failing `priority 0.2` sink); a number "
+        "outside the int range is rejected at declaration (repair fixes/C10-sink-priority-range.patch; before it such a sink became MinInt and ran first)",
         "priority numbers of child monitors are >= 0 (documented domain, '0 is the highest'). Declared deviation for negative numbers: "
         "PriorityQueue.Push clamps them to 0 while RootMonitor does not, so an event with number -2 is not taken before an earlier event with "
         "number 0 and HighestPriority reports -2 meanwhile (theorem queue_clamps_negative_priorities, findings/C10-negative-priority-clamped.json). "
